@@ -14,6 +14,7 @@ GENERIC = "prqlc/prqlc-parser/src/generic.rs"
 LOWERING = "prqlc/prqlc/src/semantic/lowering.rs"
 
 LABELS = ["TR1", "TR2", "TR2n", "TR3s", "TR3e", "TR3o", "OM1", "TRI1", "TR4", "SB1", "SB2"]
+OPTIONAL_FUNCTIONS = ["or_map"]   # utils::OrMap: under contract as long as range_of_ranges calls it
 FUNCTIONS = ["range_of_ranges", "try_range_into_int", "shift_bound", "take_slice", "or_map", "witness_take",
              "validate_take_range"]
 RLIMIT = 60
@@ -180,21 +181,28 @@ fn witness_take(a: Range<Expr>, b: Range<Expr>)
 
 def build(X):
     rng = X.type_item(GENERIC, "struct", "Range").drop_attrs()
-    ormap_trait = X.type_item(UTILS, "trait", "OrMap").drop_attrs()
-    ormap_trait.insert_after("pub trait OrMap<T> {", "    spec fn opt(self) -> Option<T>;",
-                             "ghost view of Self as an Option (Verus states trait contracts on the declaration)")
-    ormap_trait.rewrite("R3", "-> Self", "-> (r: Self)", why="named return value")
-    ormap_trait.rewrite("contract", "F: FnOnce(T, T) -> T;", """F: FnOnce(T, T) -> T,
-        requires
-            (self.opt() is Some && b.opt() is Some) ==> f.requires((self.opt()->0, b.opt()->0)),
-        ensures
-            (self.opt() is Some && b.opt() is Some) ==> (r.opt() is Some && f.ensures((self.opt()->0, b.opt()->0), r.opt()->0)), // @OM1
-            (self.opt() is Some && b.opt() is None) ==> r.opt() == self.opt(),
-            (self.opt() is None) ==> r.opt() == b.opt(),
-    ;""", why="contract spliced on the trait method declaration (no body to put it in front of)")
-    ormap_impl = X.impl(UTILS, "impl<T> OrMap<T> for Option<T>")
-    ormap_impl.insert_after("impl<T> OrMap<T> for Option<T> {", "    open spec fn opt(self) -> Option<T> { self }",
-                            "ghost view")
+    # the helper trait OrMap is part of the unit as long as range_of_ranges uses it
+    uses_ormap = "or_map" in X.fn(GEN_EXPR, "range_of_ranges").text
+    X.items.pop()
+    if uses_ormap:
+        ormap_trait = X.type_item(UTILS, "trait", "OrMap").drop_attrs()
+        ormap_trait.insert_after("pub trait OrMap<T> {", "    spec fn opt(self) -> Option<T>;",
+                                 "ghost view of Self as an Option (Verus states trait contracts on the declaration)")
+        ormap_trait.rewrite("R3", "-> Self", "-> (r: Self)", why="named return value")
+        ormap_trait.rewrite("contract", "F: FnOnce(T, T) -> T;", """F: FnOnce(T, T) -> T,
+            requires
+                (self.opt() is Some && b.opt() is Some) ==> f.requires((self.opt()->0, b.opt()->0)),
+            ensures
+                (self.opt() is Some && b.opt() is Some) ==> (r.opt() is Some && f.ensures((self.opt()->0, b.opt()->0), r.opt()->0)), // @OM1
+                (self.opt() is Some && b.opt() is None) ==> r.opt() == self.opt(),
+                (self.opt() is None) ==> r.opt() == b.opt(),
+        ;""", why="contract spliced on the trait method declaration (no body to put it in front of)")
+        ormap_impl = X.impl(UTILS, "impl<T> OrMap<T> for Option<T>")
+        ormap_impl.insert_after("impl<T> OrMap<T> for Option<T> {", "    open spec fn opt(self) -> Option<T> { self }",
+                                "ghost view")
+        ormap_text = ormap_trait.text + "\n" + ormap_impl.text
+    else:
+        ormap_text = "// range_of_ranges no longer calls OrMap::or_map: the helper's contract has nothing to attach to // @OM1\n"
     unpack = X.fn(GEN_EXPR, "unpack_as_int_literal")
     # trusted by contract: keep the signature, drop the body (enum_as_inner derive output)
     unpack.rewrite_re("R5", r"\{.*\}\s*$", "{ unimplemented!() }", count=1,
@@ -348,7 +356,7 @@ def build(X):
     X.items.remove(bd)
 
     return PRELUDE + "\n" + "\n".join([
-        rng.text, ormap_trait.text, ormap_impl.text, unpack.text, tri.text, sb.text, ror.text, sl.text,
+        rng.text, ormap_text, unpack.text, tri.text, sb.text, ror.text, sl.text,
         bai.text, vt.text, WITNESS,
     ]) + "\n} // verus!\nfn main() {}\n"
 
